@@ -1,4 +1,5 @@
 import PdfVerif.Driver.C01
+import PdfVerif.Driver.CNT
 /-!
 `pdfdriver`: reads one operation per line `<property> <op> <args…>` from stdin and prints one
 result line per input line.  Core Lean only (no Mathlib) so that it links as an executable.
@@ -8,6 +9,7 @@ open PdfVerif
 def dispatch (line : String) : String :=
   match (line.splitOn " ").filter (· ≠ "") with
   | "C01" :: rest => Driver.C01.handle rest
+  | "CNT" :: rest => Driver.CNT.handle rest
   | _ => "bad-property"
 
 partial def loop (h : IO.FS.Stream) (out : IO.FS.Stream) : IO Unit := do
